@@ -7,13 +7,16 @@ optional value is `~`, a list of byte strings is `.` (empty) or its items joined
 `C16 Q <p|q|h> <hex>`      → quote with the path / query / reg-name safe set
 `C16 U <hex>`              → `<unquote hex> <1|0>` (1 = strict UTF-8 decoding succeeds)
 `C16 J <host> <port|~>`    → hostportjoin
-`C16 H <hostport>`         → `<host|~> <port|~>` or `err` (ValueError)
+`C16 H <hostport>`         → `<host|~> <port|~>` or `err` (ValueError); `out-of-model` for non-ASCII
+                             text (`.hostname` lower-cases with `str.lower()`, not restated)
 `C16 N <text>`             → str(IPv6Address(text)) or `!`
 `C16 P <text>`             → urlsplit: `<scheme> <netloc> <path> <query> <fragment>` or `err`
 `C16 S <text>`             → set_request_uri then get_request_uri:
                              `ok <scheme> <hostinfo> <urihost|~> <path> <query> | <uri|!>`,
                              `proxy`, `err:incomplete`, `err:malformed`
 `C16 G <scheme> <hostinfo> <urihost|~> <uriport|~> <path> <query>` → get_request_uri text or `!`
+                             (`out-of-model` for a non-ASCII hostinfo, as for `H`)
+`P` and `S` take any UTF-8 text: raw non-ASCII characters in every component, the authority included.
 -/
 namespace Aiocoap.Uri
 
@@ -36,10 +39,6 @@ def showOptBytes : Option Bytes → String
 def showOptNat : Option Nat → String
   | none => "~"
   | some n => toString n
-
-/-- what `urllib` does with a non-ASCII netloc (NFKC check, Unicode lower-casing) is not
-modelled -/
-def netlocAscii (u : Bytes) : Bool := (splitAuthority u).2.1.all (· < 128)
 
 def showOutcome : Outcome → String
   | .proxy => "proxy"
@@ -90,7 +89,6 @@ def handleC16 (args : List String) : String :=
   | ["P", h] =>
     match hexToBytes h with
     | some u =>
-      if !netlocAscii u then "out-of-model" else
       match urlsplit pyIp u with
       | some p => s!"{bytesToHex p.scheme} {bytesToHex p.netloc} {bytesToHex p.path} " ++
                   s!"{bytesToHex p.query} {bytesToHex p.fragment}"
@@ -98,7 +96,7 @@ def handleC16 (args : List String) : String :=
     | none => "bad-op"
   | ["S", h] =>
     match hexToBytes h with
-    | some u => if !netlocAscii u then "out-of-model" else showOutcome (setRequestUri pyIp u)
+    | some u => showOutcome (setRequestUri pyIp u)
     | none => "bad-op"
   | ["G", sc, hi, uh, up, pa, qu] =>
     match hexToBytes sc, hexToBytes hi, parseOptBytes uh, parseOptNat up, parseList pa,
